@@ -125,6 +125,70 @@ pub fn run(prop: &str, seed: u64, files_dir: &str, cap: usize, trace_path: &str,
     let _ = prop;
 }
 
+/// Container events of real .xz decodes for Trace_Xz.tla.
+#[cfg(lzma_rs_verif)]
+pub fn run_xz(prop: &str, seed: u64, files_dir: &str, trace_path: &str, rep: &mut Report) {
+    use crate::build::{XzBlock, XzFile};
+    use rand::Rng;
+    let mut trace: Vec<String> = vec![];
+    let mut add = |data: &[u8], name: &str, rep: &mut Report, trace: &mut Vec<String>| {
+        let mut ok = false;
+        let evs = record(|| {
+            ok = api::xz_bytes(data).ok();
+        });
+        if !ok {
+            return;
+        }
+        for e in &evs {
+            let a = e.args;
+            let opt = |v: u64| -> i64 { if v == 0 { -1 } else { (v - 1).min(1 << 30) as i64 } };
+            let line = match e.name {
+                "xzhdr" => json!({"ev": "xzhdr", "check": a[0]}),
+                // the hook logs 4 * (size byte) = header without its CRC32; the real header size is 4 more
+                "xzblock" => json!({"ev": "xzblock", "hsize": a[0] + 4, "total": a[1].min(1 << 30), "pad": a[2], "unpacked": a[3].min(1 << 30), "pdecl": opt(a[4]), "udecl": opt(a[5])}),
+                "xzindex" => json!({"ev": "xzindex", "n": a[0], "size": a[1]}),
+                "xzend" => json!({"ev": "xzend", "size": a[0]}),
+                _ => continue,
+            };
+            trace.push(line.to_string());
+        }
+        rep.eval(crate::report::hash_of(&name.to_string()), true);
+        if rep.samples.len() < 4 {
+            rep.sample(json!({"file": name, "container_events": evs.iter().filter(|e| e.name.starts_with("xz")).count()}));
+        }
+    };
+    if let Ok(rd) = std::fs::read_dir(files_dir) {
+        let mut names: Vec<_> = rd.filter_map(|e| e.ok()).map(|e| e.path()).filter(|p| p.to_string_lossy().ends_with(".xz")).collect();
+        names.sort();
+        for p in names {
+            if let Ok(d) = std::fs::read(&p) {
+                add(&d, &p.file_name().unwrap().to_string_lossy(), rep, &mut trace);
+            }
+        }
+    }
+    // harness-serialised files: 0..40 blocks, every check type, size fields, header sizes, payload lengths mod 4
+    let lib = crate::d_xz::payload_lib();
+    let mut rng = StdRng::seed_from_u64(seed ^ 0x787a);
+    for i in 0..60usize {
+        let mut f = XzFile { check: [0u8, 1, 4][i % 3], ..Default::default() };
+        let nb = [0usize, 1, 2, 5, 40][i % 5];
+        for _ in 0..nb {
+            let (p, o) = lib[rng.gen_range(0..lib.len())].clone();
+            f.blocks.push(XzBlock { payload: p, content: o, hsize: [0usize, 16, 64, 260, 1024][rng.gen_range(0..5)], has_packed: rng.gen(), has_unpacked: rng.gen(), ..Default::default() });
+        }
+        add(&f.serialize().bytes, &format!("generated#{}", i), rep, &mut trace);
+    }
+    rep.add("trace_events", trace.len() as u64);
+    std::fs::write(trace_path, trace.join("\n") + "\n").expect("write trace");
+    rep.traces.push(trace_path.to_string());
+    let _ = prop;
+}
+
+#[cfg(not(lzma_rs_verif))]
+pub fn run_xz(_prop: &str, _seed: u64, _files_dir: &str, _trace_path: &str, rep: &mut Report) {
+    rep.count("hooks_unavailable");
+}
+
 #[cfg(not(lzma_rs_verif))]
 pub fn run(_prop: &str, _seed: u64, _files_dir: &str, _cap: usize, _trace_path: &str, rep: &mut Report) {
     rep.count("hooks_unavailable");
